@@ -184,7 +184,8 @@ func (e *Engine) axiomFacts() ([]axFact, error) {
 				}
 			}()
 			vc := e.newVC("axiom")
-			st := &State{pc: "true", cells: map[*ssa.Alloc]Val{}, heaps: map[string]string{}, ghosts: map[string]TVal{}, next: "1", param: false}
+			rec := map[string]bool{}
+			st := &State{pc: "true", cells: map[*ssa.Alloc]Val{}, heaps: map[string]string{}, ghosts: map[string]TVal{}, next: "", param: true, record: rec}
 			tc := &TrCtx{vc: vc, vars: map[string]TVal{}, st: st, old: st}
 			if ax.PkgPath != "" {
 				tc.pkg = e.tpkgs[ax.PkgPath]
@@ -192,13 +193,14 @@ func (e *Engine) axiomFacts() ([]axFact, error) {
 				tc.pkg = e.tpkgs[e.modPath]
 			}
 			g := tc.trBool(ax.E)
-			if len(vc.items) > 0 {
-				for _, it := range vc.items {
-					if strings.HasPrefix(it, "(declare-const h0_") {
-						err = fmt.Errorf("%s:%d: axiom %s reads the heap; axioms must be heap-independent", ax.File, ax.Line, ax.Name)
-					}
+			out = append(out, vc.items...)
+			if len(rec) > 0 {
+				// the axiom reads heaps: it is stated for every heap (heap variables universally quantified)
+				var qs []string
+				for _, k := range sortedKeys(rec) {
+					qs = append(qs, fmt.Sprintf("(hp_%s %s)", k, e.heapSorts[k]))
 				}
-				out = append(out, vc.items...)
+				g = fmt.Sprintf("(forall (%s) %s)", strings.Join(qs, " "), g)
 			}
 			out = append(out, fmt.Sprintf("(assert %s) ; %s", g, ax.Name))
 		}()
